@@ -471,7 +471,8 @@ class ClientSSM(SSM):
             else:
                 if _debug: ClientSSM._debug("    - more segments to send")
 
-                self.initialSequenceNumber = (apdu.apduSeq + 1) % 256
+                # absolute index of the next segment, sequence numbers wrap at 256
+                self.initialSequenceNumber += ((apdu.apduSeq - self.initialSequenceNumber) % 256) + 1
                 self.segmentRetryCount = 0
                 self.fill_window(self.initialSequenceNumber)
                 self.restart_timer(self.segmentTimeout)
@@ -1111,7 +1112,8 @@ class ServerSSM(SSM):
             else:
                 if _debug: ServerSSM._debug("    - more segments to send")
 
-                self.initialSequenceNumber = (apdu.apduSeq + 1) % 256
+                # absolute index of the next segment, sequence numbers wrap at 256
+                self.initialSequenceNumber += ((apdu.apduSeq - self.initialSequenceNumber) % 256) + 1
                 self.actualWindowSize = apdu.apduWin
                 self.segmentRetryCount = 0
                 self.fill_window(self.initialSequenceNumber)
